@@ -3,6 +3,11 @@
 
    gc_type, gc_fields, gc_sorter   the definition as the harness wrote it (tags already split
                                    into sorter name / priority / accessor) and the sorter judged
+   gc_raw, gc_wellformed           the same fields as the generator's parser sees them: the struct
+                                   tag of every field as key/value pairs in source order (option
+                                   text exactly as written); gc_wellformed = the harness wrote
+                                   only well-formed gsort tags, so that parsing gc_raw must give
+                                   gc_fields (the intended definition)
    gc_gen_ok                       the CLI exited 0 and the package compiled
    gc_text                         the sorter's block of the generated file, one trimmed line
                                    each (informational: compared with render_sorter)
@@ -19,7 +24,7 @@
    sort.Stable the stable one), 2 when it satisfies the specification but not the model.     *)
 From Coq Require Import List Bool ZArith NArith String Arith.
 From GT Require Import Base.Verdict.
-From GT Require Import GSortModel Base.SortU.
+From GT Require Import GSortModel GSortTagModel Base.SortU.
 Import ListNotations.
 
 (* a list of small numbers (indices, ids) is written as a string, three lower-case hexadecimal
@@ -27,6 +32,7 @@ Import ListNotations.
 Record gs_run := { sr_in : string; sr_sort : string; sr_stable : string }.
 Record gs_case := {
   gc_type : string; gc_fields : list fieldT; gc_sorter : string;
+  gc_raw : list rfieldT; gc_wellformed : bool;
   gc_gen_ok : bool;
   gc_text : list string;
   gc_vals : list (list val);
@@ -133,15 +139,22 @@ Definition in_domain (fs : list fieldT) : bool :=
 
 Definition gs_judge_with
   (model : string -> list fieldT -> string -> option ltT) (c : gs_case) : nat :=
-  let m := model (gc_type c) (gc_fields c) (gc_sorter c) in
+  let intended := gc_fields c in
+  let parsed := parse_fields (gc_raw c) in            (* the model of the tag parser *)
+  let m := match parsed with
+           | Some fs => model (gc_type c) fs (gc_sorter c)
+           | None => None
+           end in
   if negb (gc_gen_ok c) then
-    if in_domain (gc_fields c) then 1
+    if gc_wellformed c && in_domain intended then 1
     else match m with None => 0 | Some _ => 2 end
   else
-    match m with
-    | None => 2
-    | Some lt =>
-        verdict (obs_ok (spec_less (gc_sorter c) (gc_fields c)) c) (obs_ok lt c && obs_cov c)
+    match m, parsed with
+    | Some lt, Some fs =>
+        if gc_wellformed c && negb (fields_eqb fs intended) then 2
+        else verdict (obs_ok (spec_less (gc_sorter c) (if gc_wellformed c then intended else fs)) c)
+                     (obs_ok lt c && obs_cov c)
+    | _, _ => 2
     end.
 Definition gs_judge := gs_judge_with gen_less.
 Definition gs_judge_orig := gs_judge_with gen_less_orig.
@@ -154,7 +167,10 @@ Fixpoint strs_eqb (a b : list string) : bool :=
   | _, _ => false
   end.
 Definition text_ok_with (str : cmpline -> string) (c : gs_case) : bool :=
-  match create (gc_type c) (gc_fields c) with
+  match match parse_fields (gc_raw c) with
+        | Some fs => create (gc_type c) fs
+        | None => None
+        end with
   | None => negb (gc_gen_ok c)
   | Some ds => match find_sorter (gc_sorter c) ds with
                | None => false
